@@ -231,7 +231,18 @@ def check_stack(idx: Index, rep: Report) -> None:
     else:
         r.fail(cm.fq, Finding("C19.R2", cm.fq, "unpaired-reservation", "the reservation context manager must reserve and unreserve exactly the same registers", cm.loc))
     fv = idx.func(RA, "ValueAllocator.free_value")
-    if "if isinstance(val.type, self.register_base_class) and val.type.is_allocated:\n        self.available_registers.push(val.type)" in unparse(fv.node):
+    from ..astutil import text_facts as _tf19
+
+    vp = fv.node.args.args[1].arg
+    pushes = [c for c in calls_in(fv.node) if unparse(c.func) == "self.available_registers.push"]
+    if not pushes:
+        raise AnalysisError(f"{fv.fq}: no push onto the available registers found")
+
+    def _push_ok(c: ast.Call) -> bool:
+        fs = set(_tf19(fv.node, c))
+        return len(c.args) == 1 and unparse(c.args[0]) == f"{vp}.type" and (f"isinstance({vp}.type, self.register_base_class)", True) in fs and (f"{vp}.type.is_allocated", True) in fs
+
+    if all(_push_ok(c) for c in pushes):
         r.ok(fv.fq, f"{fv.loc} only allocated registers of the allocator's class are returned")
     else:
         r.fail(fv.fq, Finding("C19.R2", fv.fq, "free-value", "free_value must push only allocated registers of the allocator's register class", fv.loc))
